@@ -79,7 +79,7 @@ class RestartRun:
     """
 
     def __init__(self, program, crashes=None, media=None, loader_mode='default', build=None, max_rounds=200, pauses=None,
-                 crash_paused=None):
+                 crash_paused=None, pause_in_step=None, crash_on_paused=None):
         self.plumpy = seams.install()
         self.program = program
         self.crashes = {int(k): v for k, v in (crashes or {}).items()}
@@ -106,6 +106,14 @@ class RestartRun:
         # checkpointed and abandoned instead of being played
         self.pauses = set(int(b) for b in (pauses or []))
         self.crash_paused = set(int(b) for b in (crash_paused or []))
+        # ordinals (over the whole history) of step-function executions from inside which a pause is requested - the pause
+        # is then carried out together with the transition that follows the step - and ordinals of 'paused' listener
+        # notifications at which the checkpoint is written and the instance abandoned
+        self.pause_in_step = set(int(b) for b in (pause_in_step or []))
+        self.crash_on_paused = set(int(b) for b in (crash_on_paused or []))
+        self.step_ordinal = 0
+        self.paused_ordinal = 0
+        self.world.site_hook = self._in_user_code
 
     def _medium(self):
         medium = self.media[self.restores % len(self.media)]
@@ -143,9 +151,40 @@ class RestartRun:
         self.world.rec('crash', self.boundary, proc.state.value, self._medium())
         raise SimCrash()
 
+    def _in_user_code(self, proc, site, count):
+        if not site.startswith('step:') or getattr(proc, '_sim_label', None) != 'p':
+            return
+        self.step_ordinal += 1
+        if self.step_ordinal in self.pause_in_step:
+            self.world.rec('pause_in_step', self.step_ordinal)
+            proc.pause(f'paused from inside step execution {self.step_ordinal}')
+
+    def _paused_notification(self, proc):
+        if getattr(proc, '_sim_label', None) != 'p':
+            return
+        self.paused_ordinal += 1
+        if self.paused_ordinal not in self.crash_on_paused:
+            return
+        try:
+            self.pending_bundle = save(proc, self._medium(), self._loader())
+        except SimError:
+            raise
+        except Exception as exc:  # noqa: BLE001
+            self.unsavable += 1
+            self.world.rec('unsavable', f'paused#{self.paused_ordinal}', type(exc).__name__)
+            return
+        self.crash_states.append('paused-notification:' + proc.state.value)
+        self.world.rec('crash', f'paused#{self.paused_ordinal}', 'paused-notification:' + proc.state.value, self._medium())
+        raise SimCrash()
+
     def _attach(self, proc):
         self.incarnations += 1
         proc._sim_label = 'p'
+        if self.crash_on_paused:
+            from . import listeners
+
+            listeners.PAUSED_HOOK[0] = self._paused_notification
+            proc.add_process_listener(listeners.CheckpointOnPaused())
         proc.add_state_event_callback(self.plumpy.base.state_machine.StateEventHook.ENTERED_STATE, self._on_entered)
 
     def run(self):
@@ -204,6 +243,10 @@ class RestartRun:
                         self.world.rec('runaway')
                         break
                     if self.pending_bundle is not None or proc.has_terminated():
+                        if self.pending_bundle is None and proc.paused:
+                            # a pause requested during the last step is carried out with the transition into the terminal
+                            # state: whoever paused plays again (which is what restores the status text)
+                            proc.play()
                         break
                     if proc.paused:
                         if self.boundary in self.crash_paused:
@@ -249,4 +292,8 @@ class RestartRun:
         return True
 
     def close(self):
+        if self.crash_on_paused:
+            from . import listeners
+
+            listeners.PAUSED_HOOK[0] = None
         seams.reset_world()
